@@ -103,6 +103,27 @@ def evaluate(cases, name='Cases'):
     if len(res) != len(cases):
         raise MachineryError('probe_c15: wrong number of answers')
     fails = [[] for _ in cases]
+    # derived attributes of substitution results: compared with the attributes the same sentence has when it is
+    # built on its own in a fresh interpreter (where nothing can have been inherited from a receiver)
+    results = {}
+    for c, r in zip(cases, res):
+        for got in r.get('subst', ()):
+            if L.is_tree(got):
+                results.setdefault(json.dumps(got), got)
+    keys = list(results)
+    fresh = probe_json('probe_c15.py', stdin=json.dumps(dict(cases=[dict(s=results[k], pairs=[], unq=[]) for k in keys])),
+                       timeout=1800) if keys else []
+    fresh_attrs = {k: fr['attrs'] for k, fr in zip(keys, fresh)}
+    for k, (c, r) in enumerate(zip(cases, res)):
+        for (new, old), got, ga in zip(c['pairs'], r.get('subst', ()), r.get('subst_attrs') or ()):
+            if ga is None or not L.is_tree(got):
+                continue
+            want = fresh_attrs.get(json.dumps(got))
+            if want is not None and ga != want:
+                diff = [n for n in want if ga.get(n) != want[n]]
+                fails[k].append((f'attr-after-substitute:{L.top_class(c["s"])}:{",".join(diff)}',
+                                 dict(new=new, old=old, result=got, observed={n: ga.get(n) for n in diff},
+                                      expected={n: want[n] for n in diff})))
     exprs, slots = [], []
     for k, (c, r) in enumerate(zip(cases, res)):
         s = c['s']
